@@ -4,7 +4,12 @@ package method
 
 // Harness for C09 (kernel K10): context diagnostics do not depend on map iteration order.
 
-import "github.com/jmattheis/goverter/xtype"
+import (
+	"go/token"
+	"go/types"
+
+	"github.com/jmattheis/goverter/xtype"
+)
 
 func verifKey(tag string, others ...string) string {
 	k := nondetString(tag, 1)
@@ -29,4 +34,27 @@ func VerifHarness_C09_ContextDebug() {
 	for i := 0; i < len(x) && i < len(y); i++ {
 		verifAssert("context-lines-same-order", x[i] == y[i])
 	}
+}
+
+// VerifHarness_C09_UnknownContexts (kernel K10.unknowncontexts): with several goverter:context lines naming
+// parameters that do not exist, the diagnostic names the same one whatever the iteration order of the set of names
+// (the same call twice in one path: each range picks its own order) - and it is the smallest of them.
+func VerifHarness_C09_UnknownContexts() {
+	sig := types.NewSignatureType(nil, nil, nil,
+		types.NewTuple(types.NewParam(token.NoPos, verifUserPkg, "source", types.Typ[types.Int]), types.NewParam(token.NoPos, verifUserPkg, "ctxA", types.Typ[types.String])),
+		types.NewTuple(types.NewParam(token.NoPos, verifUserPkg, "", types.Typ[types.String])), false)
+	obj := types.NewFunc(token.NoPos, verifUserPkg, "Convert", sig)
+	names := map[string]bool{"ctxA": true, "zone": true, "bogus": true}
+	if nondetBool("third-unknown-name") {
+		names["alpha"] = true
+	}
+	opts := &ParseOpts{ErrorPrefix: "error", Location: "in.go:1", Params: ParamsRequired, OutputPackagePath: verifUserPkg.Path()}
+	_, e1 := Parse(obj, opts, LocalOpts{Context: names})
+	_, e2 := Parse(obj, opts, LocalOpts{Context: names})
+	verifReach("parsed")
+	verifAssert("unknown-context-names-are-an-error", e1 != nil && e2 != nil)
+	if e1 == nil || e2 == nil {
+		return
+	}
+	verifAssert("same-diagnostic-whatever-the-order", e1.Error() == e2.Error())
 }
